@@ -293,10 +293,20 @@ def FullQueryModes : Prop :=
   ∀ (q1 q2 : Bool) (x : Str), canonQuery q2 (canonQuery q1 x) = canonQuery q2 x
 
 /-- **idempotence in both modes and the four mode round trips of the query** (`QslClean`:
-every key and value is `cleanStr`, needed when the first pass is the quoted one) -/
+every key and value is `cleanItem` — `cleanStrBy` for the safe set `"/+"` that `safely_quote_qsl` quotes
+with —, needed when the first pass is the quoted one) -/
 theorem query_modes_partial (q1 q2 : Bool) (x : Str) (hcl : q1 = true → QslClean x) :
     canonQuery q2 (canonQuery q1 x) = canonQuery q2 x :=
   canonQuery_modes q1 q2 x hcl
+
+/-- non-vacuity after FX-C01-6e09416: a raw `+` (kept by `safely_quote_qsl`, `safe="/+"`) and an
+escaped one (kept by the unquoter: `+` is in `UNSAFE_FOR_QUERY_ITEM`) are inside the hypothesis,
+and each is its own canonical spelling in both modes -/
+example :
+    (∀ kv ∈ safeQslIter "a+b=c%2Bd&q=+".toList, cleanItem kv.1 = true ∧ ∀ v ∈ kv.2, cleanItem v = true) ∧
+    canonQuery true "a+b=c%2Bd&q=+".toList = "a+b=c%2Bd&q=+".toList ∧
+    canonQuery false "a+b=c%2Bd&q=+".toList = "a+b=c%2Bd&q=+".toList := by
+  decide +kernel
 
 /-- KF-C02-1 in the model: a query value `=` does not come back from quoted mode -/
 example : ¬ FullQueryModes := by
